@@ -370,11 +370,45 @@ class _Chunking(Client):
         return (state,)
 
 
+def _strip_size_one_fast_path(stmts):
+    """`if <size> == 1: for x in <data>: yield [x]  return` in front of the general accumulate-and-yield code is the general code
+    specialised to chunks of one element (one fresh one-element list per element, lazily, in order, nothing left over): it is
+    dropped when <size> is what the general loop compares the accumulator's length with and <data> is what that loop iterates"""
+    doc = [s for s in stmts if isinstance(s, ast.Expr) and isinstance(s.value, ast.Constant)]
+    rest = [s for s in stmts if s not in doc]
+    if not rest or not isinstance(rest[0], ast.If):
+        return stmts
+    g = rest[0]
+    t = g.test
+    if not (isinstance(t, ast.Compare) and len(t.ops) == 1 and isinstance(t.ops[0], ast.Eq) and const_value(t.comparators[0], None) == 1):
+        return stmts
+    body = list(g.body)
+    if g.orelse:
+        return stmts
+    if not (len(body) == 2 and isinstance(body[0], ast.For) and isinstance(body[1], ast.Return) and body[1].value is None):
+        return stmts
+    lp = body[0]
+    if lp.orelse or len(lp.body) != 1 or not isinstance(lp.target, ast.Name):
+        return stmts
+    y = lp.body[0]
+    if not (isinstance(y, ast.Expr) and isinstance(y.value, ast.Yield) and isinstance(y.value.value, ast.List)
+            and len(y.value.value.elts) == 1 and isinstance(y.value.value.elts[0], ast.Name) and y.value.value.elts[0].id == lp.target.id):
+        return stmts
+    general = [s for s in rest[1:] if isinstance(s, ast.For)]
+    if len(general) != 1 or src(general[0].iter) != src(lp.iter):
+        return stmts
+    size = src(t.left)
+    if not any(isinstance(c, ast.Compare) and size in (src(c.left), *[src(x) for x in c.comparators]) for c in ast.walk(general[0])):
+        return stmts
+    return doc + rest[1:]
+
+
 def chunking_idiom(prog, rep: Report, rule: str, f: Func, role: str, cls: Optional[Cls] = None, body=None,
                    data_expr: Optional[str] = None):
     """check one accumulate-and-yield instance: generator function ``f`` (or the given statement list of it)"""
     rep.fn(f)
     stmts = body if body is not None else f.node.body
+    stmts = _strip_size_one_fast_path(list(stmts))
     loops = [s for s in stmts if isinstance(s, ast.For)]
     accs = [s for s in stmts if isinstance(s, ast.Assign) and len(s.targets) == 1 and isinstance(s.targets[0], ast.Name)
             and isinstance(s.value, (ast.List, ast.Call, ast.ListComp))]
